@@ -128,3 +128,25 @@ package types
 //@ loop 4 invariant[keep1]    distinctTo(vkL, len(gs.PerMessageBurnLimitList) - 1)
 //@ loop 4 invariant[keep2]    distinctTo(vkP, len(gs.TokenPairList) - 1)
 //@ loop 4 invariant[keep3]    distinctTo(vkN, len(gs.UsedNoncesList) - 1)
+
+// ---- from Validate's distinct store keys to the distinct entries InitGenesis requires (C17.valid.*): entries that
+// agree in their key fields have the same store key, so distinct store keys mean distinct key fields.
+//@ lemma C17.bridge.attesters (a: bytes, b: bytes)
+//@ assume cat(a, "/") != cat(b, "/")
+//@ prove a != b
+
+//@ lemma C17.bridge.limits (a: bytes, b: bytes)
+//@ assume cat(a, "/") != cat(b, "/")
+//@ prove a != b
+
+//@ lemma C17.bridge.tokenPairs (d: uint32, t: bytes, e: uint32, u: bytes)
+//@ assume cat(keccak(cat(be32(d), t)), "/") != cat(keccak(cat(be32(e), u)), "/")
+//@ prove !(d == e && t == u)
+
+//@ lemma C17.bridge.usedNonces (d: uint32, n: uint64, e: uint32, m: uint64)
+//@ assume cat(be32(d), be64(n), "/") != cat(be32(e), be64(m), "/")
+//@ prove !(d == e && n == m)
+
+//@ lemma C17.bridge.messengers (d: uint32, e: uint32)
+//@ assume cat(be32(d), "/") != cat(be32(e), "/")
+//@ prove d != e
